@@ -44,7 +44,7 @@ for v in variants:
     own = v.split("-")[0]
     wave = v.split("-")[1]
     key = (g, wave[0] if g == "seeded" else ("R%d" % ((int(wave[1:]) - 1) // 3 + 1) if g == "benign" else "F"))
-    if g == "seeded": key = (g, {"A": 1, "B": 1, "C": 2, "D": 2, "E": 3, "F": 3, "G": 4, "H": 4, "I": 5, "J": 5, "K": 6, "L": 6, "M": 7, "N": 7, "O": 8, "P": 8}.get(wave, 0))
+    if g == "seeded": key = (g, {"A": 1, "B": 1, "C": 2, "D": 2, "E": 3, "F": 3, "G": 4, "H": 4, "I": 5, "J": 5, "K": 6, "L": 6, "M": 7, "N": 7, "O": 8, "P": 8, "Q": 9, "R": 9}.get(wave, 0))
     st = stats[key]; st[2] += 1; st[1] += bool(caught); st[0] += (own in caught) if g != "selftest" else bool(caught)
     if "--write" in sys.argv:
         with open(os.path.join(ROOT, g, v, "detect.txt"), "w") as fo:
